@@ -30,7 +30,7 @@ from hpstatic.loader import AnalysisError
 from hpstatic.poly import Canon
 from hpstatic.terms import (sym, intern, show, subterms, calls_in, TRUE, FALSE,
                             NONE, atoms_of, kw, num)
-from .common import final_self, init_of, lt_form, path_has, norm_cond
+from .common import final_self, init_of, lt_form, path_has, norm_cond, beyond_guards
 from hpstatic.logic import cmp_is
 
 MUTATION_TARGETS = {'holopy/core/prior.py': ['__add__', '__mul__', '__radd__', '__sub__', '__rsub__', '__rmul__', '__truediv__', '__rtruediv__', '__neg__', '__pow__', '__rpow__', 'scale', 'unscale', 'lnprob', 'prob', 'sample', 'guess', 'interval', '__init__', 'variance']}
@@ -718,7 +718,7 @@ def r8_uniform_guess(check, prog, canon):
     outside = [o for o in rs if any(t == GN and not p for t, p in norm_cond(o.cond))]
     ok = len(outside) == 1
     if ok:
-        cs = [(t, p) for t, p in norm_cond(outside[0].cond) if t != GN]
+        cs = [(t, p) for t, p in beyond_guards(outside[0].cond, res) if t != GN]
         ok = len(cs) == 1 and cs[0][1] is True and cs[0][0][0] == 'bool' and \
             cs[0][0][1] == 'or' and {lt_form(x) for x in cs[0][0][2]} == {
                 ('<', g, l), ('<', u, g)}
